@@ -102,7 +102,7 @@ NodeC(ver, sl, ch) == [NewNode(S_ARDUINO_NODE, ver) EXCEPT !.sl = sl, !.ch = ch]
 
 St(nodes, ver, proto, metric) ==
     [nodes |-> nodes, ver |-> ver, proto |-> proto, metric |-> metric,
-     setbuf |-> EmptyFn, asked |-> {}, held |-> {}]
+     setbuf |-> EmptyFn, asked |-> {}, held |-> EmptyFn]
 
 -----------------------------------------------------------------------------
 (* Checked formulas *)
@@ -176,7 +176,7 @@ ReactionAddressedToAsker ==
            LET w == obs'.react[i] IN
            w.n = ev_.n \/ w = VersionQuery \/ (w.n = Broadcast /\ w.t = I_DISCOVER_REQUEST) ]_vars
 ReactionsNeverParked ==
-    [][ IsRecv => (DOMAIN st'.setbuf \subseteq DOMAIN st.setbuf /\ st'.held \subseteq st.held) ]_vars
+    [][ IsRecv => (DOMAIN st'.setbuf \subseteq DOMAIN st.setbuf /\ DOMAIN st'.held \subseteq DOMAIN st.held) ]_vars
 NoQueryOnceKnown ==
     [][ (IsRecv /\ st.ver # NoVer) => \A i \in 1..Len(obs'.react) : obs'.react[i] # VersionQuery ]_vars
 
@@ -236,7 +236,7 @@ SendTrichotomy ==
               written == obs'.react = <<m>>
               parked  == (m.cmd = C_SET /\ KeyOf(m) \in DOMAIN st'.setbuf /\ st'.setbuf[KeyOf(m)].p = m.p
                           /\ (KeyOf(m) \notin DOMAIN st.setbuf \/ st.setbuf[KeyOf(m)] # st'.setbuf[KeyOf(m)] \/ TRUE))
-                         \/ (m \in st'.held)
+                         \/ (m \in DOMAIN st'.held)
               failed  == obs'.out.k = "err"
           IN  /\ (written \/ (parked /\ obs'.react = <<>>) \/ failed)
               /\ ~(written /\ failed) ]_vars
